@@ -195,7 +195,7 @@ def strategy(tier):
     solve = st.builds(lambda t, r, x: {"op": "solve", "trans": t, "rhs": r, "x0": x},
                       st.sampled_from(["N", "N", "T", "H"]), rhs, st.sampled_from(["none"] * 5 + ["rand", "exact", "zero"]))
     # inplace: the new values are written into the matrix object handed over before (same object, same pattern/dtype)
-    update = st.builds(U, st.sampled_from(["new", "new", "same", "scaled", "special", "dtype_switch", "dtype_switch"]),
+    update = st.builds(U, st.sampled_from(["new", "new", "same", "scaled", "special", "dtype_switch", "dtype_switch", "permuted", "permuted"]),
                        st.sampled_from([False, False, True]))
     op = st.one_of(solve, solve, solve, solve, solve, solve, update)
 
@@ -408,6 +408,12 @@ def check_case(case):
             if (not is_sym or (cand == cand.T).all()) and (not is_herm or (cand == cand.conj().T).all()):
                 labels.append("update:more_special")
                 return cand
+        if how == "permuted" and mclass not in ("upper", "lower") and n >= 2:
+            # the same matrix under a symmetric permutation of the dofs: same class, same size, same number of non-zeros,
+            # but structurally decoupled dofs (if any) sit elsewhere
+            pr = rng.permutation(n)
+            labels.append("update:permuted")
+            return np.ascontiguousarray(Aprev[np.ix_(pr, pr)])
         if how == "dtype_switch" and storage == "dense" and mclass in ("general", "pattern") and n >= 2:
             # a matrix of the same class with the other dtype (real <-> complex); general matrices are neither symmetric
             # nor Hermitian before and after, so the flags of the wrapper's life stay true
